@@ -10,6 +10,7 @@ import (
 	"errors"
 	"fmt"
 	"strings"
+	"sync/atomic"
 	"time"
 
 	bs "github.com/danthegoodman1/bloomsearch"
@@ -127,8 +128,9 @@ type cursorScenario struct {
 	slots    []*bs.VerifSlot
 	sem      chan struct{}
 
-	cancelled bool
-	finished  bool
+	cancelled  bool
+	closeEarly atomic.Bool // a Close call returned before the workers were done
+	finished   bool
 	nextObs   []nextObs         // consumer's observations in order
 	perWorker map[int][][]int64 // worker index -> batches in issue order
 	stats     []bs.BlockStats   // in call order
@@ -153,7 +155,13 @@ func runCursorScenario(c *Ctx, fixed bool, script string) (term string, desc map
 	log := installLog()
 	pz := installPauser()
 	defer removeLog()
-	ctx, cancel := context.WithCancel(context.Background())
+	// the caller's context: a stdlib one, or one whose cancellation reaches the cursor's derived context late
+	ctxKind := []string{"std", "std", "watch", "gated", "gated"}[c.intn(5)]
+	if script == "late" {
+		ctxKind = "gated"
+	}
+	ctx, cancel, propagate := newQCallerCtx(ctxKind)
+	defer propagate()
 	defer cancel()
 	sc := &cursorScenario{c: c, log: log, pz: pz, cancel: cancel, errObs: map[int]terr{}, perWorker: map[int][][]int64{}}
 	sc.r = bs.VerifNewResults(ctx)
@@ -174,6 +182,9 @@ func runCursorScenario(c *Ctx, fixed bool, script string) (term string, desc map
 	holdP := map[string]float64{"res.next.wait": 0.5, "res.close.waited": 0.4, "res.term.waited": 0.4, "res.deliver.block": 0.3}
 	if script == "d7" {
 		holdP = map[string]float64{"res.next.wait": 1}
+	}
+	if script == "late" {
+		holdP = map[string]float64{}
 	}
 	holds := map[string]bool{}
 	for k, p := range holdP {
@@ -256,7 +267,12 @@ func runCursorScenario(c *Ctx, fixed bool, script string) (term string, desc map
 		if !sc.closers[k].settle(0) {
 			return
 		}
-		sc.closers[k].start(func() { sc.r.Close() })
+		sc.closers[k].start(func() {
+			sc.r.Close()
+			if !sc.r.VerifWorkersDone() {
+				sc.closeEarly.Store(true)
+			}
+		})
 		sc.closers[k].settle(settleShort)
 	}
 
@@ -269,6 +285,39 @@ func runCursorScenario(c *Ctx, fixed bool, script string) (term string, desc map
 		pz.waitParked("res.next.wait", time.Second)
 		doCancel()
 		doWorkersDone()
+	} else if script == "late" {
+		// The pipeline finishes by itself, rows are still buffered, the caller cancels and the cancellation has
+		// not reached the cursor's internal context when the consumer comes back: the remaining calls hand out
+		// what is buffered, the last one finds the channel closed and must still report the cancellation.
+		for i, n := 0, c.intn(4); i < n; i++ { // at most queryRowBatchBuffer batches: no deliver blocks
+			sc.plan = append(sc.plan, "deliver")
+			w := c.intn(nWorkers)
+			sc.workers[w].wait()
+			doDeliver(w)
+		}
+		for _, a := range sc.workers {
+			a.wait()
+		}
+		for i, n := 0, c.intn(3); i < n; i++ {
+			if sc.consumer.settle(0) { // (a Next that found nothing buffered is still inside its select)
+				sc.plan = append(sc.plan, "next")
+				doNext()
+			}
+		}
+		if c.chance(0.3) {
+			sc.plan = append(sc.plan, "err")
+			doErr()
+		}
+		order := c.intn(2)
+		if order == 0 {
+			sc.plan = append(sc.plan, "workersdone", "cancel")
+			doWorkersDone()
+			doCancel()
+		} else {
+			sc.plan = append(sc.plan, "cancel", "workersdone")
+			doCancel()
+			doWorkersDone()
+		}
 	} else {
 		steps := 8 + c.intn(30)
 		for i := 0; i < steps; i++ {
@@ -307,6 +356,10 @@ func runCursorScenario(c *Ctx, fixed bool, script string) (term string, desc map
 				k := c.intn(nClosers)
 				sc.plan = append(sc.plan, fmt.Sprintf("close%d", k))
 				doClose(k)
+			case x < 90 && ctxKind == "gated" && sc.cancelled:
+				sc.plan = append(sc.plan, "propagate")
+				propagate()
+				time.Sleep(settleShort)
 			case x < 96:
 				if n := pz.parkedCount(); n > 0 {
 					sc.plan = append(sc.plan, "release")
@@ -326,7 +379,16 @@ func runCursorScenario(c *Ctx, fixed bool, script string) (term string, desc map
 	// ---- wind down: everything must come to an end
 	if script == "d7" {
 		pz.releaseAll()
+	} else if script == "late" {
+		deadline := time.Now().Add(10 * time.Second)
+		for anyWorkerBusy() && time.Now().Before(deadline) {
+			time.Sleep(100 * time.Microsecond)
+		}
+		pz.releaseAll()
 	} else {
+		if c.chance(0.5) {
+			propagate()
+		}
 		mode := c.intn(3) // 0: consumer drains; 1: cancel; 2: close
 		switch mode {
 		case 1:
@@ -405,6 +467,37 @@ func runCursorScenario(c *Ctx, fixed bool, script string) (term string, desc map
 
 	// ---- translate the log
 	evs := log.snapshot()
+	// C20 directly on the implementation: the caller's cancel had returned before the Next call that ended
+	// the iteration began and nobody had called Close when it ended: Err must be the context's error.
+	if fixed {
+		callStart, cancelEnd, closeBegin, finish := -1, -1, -1, -1
+		for i, e := range evs {
+			switch e.Kind {
+			case "res.next.term", "res.next.wait", "res.next.pending", "res.next.done":
+				if finish < 0 {
+					callStart = i
+				}
+			case "caller.cancel.end":
+				cancelEnd = i
+			case "res.close.begin":
+				if closeBegin < 0 {
+					closeBegin = i
+				}
+			case "res.finish":
+				if finish < 0 {
+					finish = i
+				}
+			}
+		}
+		if finish >= 0 && cancelEnd >= 0 && cancelEnd < callStart && (closeBegin < 0 || closeBegin > finish) && finalErr.kind != "cancel" {
+			c.violation("q-cursor-cancel-missed", fmt.Sprintf("cursor component: the caller's context (%s) was cancelled before the Next call that returned false began, nobody had called Close, yet Err = %s %s",
+				ctxKind, finalErr.kind, finalErr.text), map[string]any{"plan": sc.plan, "ctx": ctxKind})
+		}
+	}
+	if sc.closeEarly.Load() {
+		c.violation("q-close-early", "cursor component: a Close call returned before markWorkersDone (the pipeline had not wound down)", map[string]any{"plan": sc.plan})
+	}
+	c.dist("cursor_ctx", ctxKind)
 	closerIdx := map[int64]int{mainGid: nClosers}
 	for k, a := range sc.closers {
 		closerIdx[a.gid] = k
@@ -572,7 +665,7 @@ func runCursorScenario(c *Ctx, fixed bool, script string) (term string, desc map
 	}
 	desc = map[string]any{"kind": "cursor", "script": script, "plan": strings.Join(sc.plan, " "), "events": len(evs), "holds": holds,
 		"err": finalErr.kind, "err_text": finalErr.text, "rows_returned": returned, "rows_matched": finalStats.RowsMatched,
-		"cancelled": sc.cancelled, "closers": nClosers, "workers": nWorkers}
+		"cancelled": sc.cancelled, "closers": nClosers, "workers": nWorkers, "ctx": ctxKind}
 	c.dist("cursor_err", finalErr.kind)
 	c.dist("cursor_events", qBucket(len(evs)))
 	nontrivial = len(evs) >= 8 && returned+len(sc.errIDs)+len(sc.stats) > 0
